@@ -17,3 +17,4 @@ fn main() {
     let args: Vec<String> = std::env::args().collect();
     std::process::exit(checks::main(&args[1..]));
 }
+mod e3_state;
